@@ -34,6 +34,7 @@ import (
 	"math/bits"
 	"regexp"
 	"strings"
+	"time"
 
 	"golang.org/x/crypto/ssh"
 	"pgregory.net/rapid"
@@ -77,7 +78,7 @@ func c04NewKey(name, kind string, rsaBits int) (*c04Key, error) {
 		crv := map[string]string{"ec256": "P-256", "ec384": "P-384", "ec521": "P-521"}[kind]
 		k.JWK = fmt.Sprintf(`{"crv":"%s","kty":"EC","x":"%s","y":"%s"}`, crv, c04B64.EncodeToString(xb), c04B64.EncodeToString(yb))
 	case "rsa":
-		p, err := rsa.GenerateKey(rand.Reader, rsaBits)
+		p, err := c04RSAKey(rsaBits)
 		if err != nil {
 			return nil, err
 		}
@@ -108,6 +109,38 @@ func c04NewKey(name, kind string, rsaBits int) (*c04Key, error) {
 	return k, nil
 }
 
+// c04RSAKey builds an RSA key whose modulus has EXACTLY bits bits: two primes of ceil(bits/2) and floor(bits/2) bits
+// (crypto/rand.Prime sets the two top bits of each, so the product has exactly the sum of the sizes).
+func c04RSAKey(bits int) (*rsa.PrivateKey, error) {
+	e := big.NewInt(65537)
+	one := big.NewInt(1)
+	for {
+		p, err := rand.Prime(rand.Reader, (bits+1)/2)
+		if err != nil {
+			return nil, err
+		}
+		q, err := rand.Prime(rand.Reader, bits/2)
+		if err != nil {
+			return nil, err
+		}
+		if p.Cmp(q) == 0 {
+			continue
+		}
+		n := new(big.Int).Mul(p, q)
+		phi := new(big.Int).Mul(new(big.Int).Sub(p, one), new(big.Int).Sub(q, one))
+		d := new(big.Int).ModInverse(e, phi)
+		if d == nil || n.BitLen() != bits {
+			continue
+		}
+		k := &rsa.PrivateKey{PublicKey: rsa.PublicKey{N: n, E: 65537}, D: d, Primes: []*big.Int{p, q}}
+		k.Precompute()
+		if err := k.Validate(); err != nil {
+			continue
+		}
+		return k, nil
+	}
+}
+
 // c04KeySpecs is the fixed layout of the key table. Order = order of the authorized_keys file.
 var c04KeySpecs = []struct {
 	name, kind string
@@ -122,6 +155,11 @@ var c04KeySpecs = []struct {
 	{"ed", "ed", 0, "erin@example.com", "listed"},
 	{"ed2", "ed", 0, "Frank Doe", "listed"},
 	{"weakrsa", "rsa", 1024, "mallory-weak@example.com", "weak"},
+	// modulus sizes around the documented bound "RSA (>=2048-bit)": below it the line authorises nobody
+	{"rsa2040", "rsa", 2040, "mallory-2040@example.com", "weak"},
+	{"rsa2041", "rsa", 2041, "mallory-2041@example.com", "weak"},
+	{"rsa2047", "rsa", 2047, "mallory-2047@example.com", "weak"},
+	{"rsa2049", "rsa", 2049, "grace@example.com", "listed"},
 	{"nocomment", "ed", 0, "", "nocomment"},
 	{"commented", "ed", 0, "zed@example.com", "commented"},
 	{"unlisted-ec256", "ec256", 0, "", "unlisted"},
@@ -129,14 +167,15 @@ var c04KeySpecs = []struct {
 	{"unlisted-rsa", "rsa", 2048, "", "unlisted"},
 }
 
-var c04ListedNames = []string{"ec256", "ec384", "ec521", "rsa", "ed", "ed2"}
+var c04ListedNames = []string{"ec256", "ec384", "ec521", "rsa", "ed", "ed2", "rsa2049"}
 var c04UnauthorisedNames = []string{"unlisted-ec256", "unlisted-ed", "unlisted-rsa", "weakrsa", "nocomment", "commented"}
 
 // c04Comments is known to the generator without the keys (comments are constants).
 var c04Comments = map[string]string{"ec256": "alice@example.com", "ec384": "bob@example.com", "ec521": "carol@example.com",
-	"rsa": "dave@example.com", "ed": "erin@example.com", "ed2": "Frank Doe"}
+	"rsa": "dave@example.com", "ed": "erin@example.com", "ed2": "Frank Doe", "rsa2049": "grace@example.com"}
 
 var c04KindOf = map[string]string{"ec256": "ec256", "ec384": "ec384", "ec521": "ec521", "rsa": "rsa", "ed": "ed", "ed2": "ed",
+	"rsa2049": "rsa", "rsa2040": "rsa", "rsa2041": "rsa", "rsa2047": "rsa",
 	"weakrsa": "rsa", "nocomment": "ed", "commented": "ed", "unlisted-ec256": "ec256", "unlisted-ed": "ed", "unlisted-rsa": "rsa"}
 
 // c04BuildKeys generates the key table and the authorized_keys file contents.
@@ -182,11 +221,14 @@ func c04BuildKeys() (map[string]*c04Key, []byte, error) {
 
 // c04Claim is one JSON member (of the claims set or of the protected header).
 type c04Claim struct {
-	N string   `json:"n"`
-	K string   `json:"k"`           // s = string, t = instant as offset in seconds from "now", a = string array, j = raw JSON literal
-	S string   `json:"s,omitempty"` // string value / raw literal
-	T int64    `json:"t,omitempty"`
-	A []string `json:"a,omitempty"`
+	N string `json:"n"`
+	K string `json:"k"` // s = string, t = instant as offset in seconds from "now", a = string array, j = raw JSON literal
+	// further spellings of an instant (T): tf = JSON float "N.5", ts = numeric string "\"N\"", tr = RFC 3339 string (UTC),
+	// tro = RFC 3339 string with a +02:00 offset, trf = RFC 3339 with fractional seconds. Abs: T is Unix seconds, not an offset.
+	Abs bool     `json:"abs,omitempty"`
+	S   string   `json:"s,omitempty"` // string value / raw literal
+	T   int64    `json:"t,omitempty"`
+	A   []string `json:"a,omitempty"`
 }
 
 type c04Tok struct {
@@ -209,8 +251,25 @@ func c04ClaimJSON(c c04Claim, now int64) string {
 	case "s":
 		b, _ := json.Marshal(c.S)
 		v = string(b)
-	case "t":
-		v = fmt.Sprintf("%d", now+c.T)
+	case "t", "tf", "ts", "tr", "tro", "trf":
+		u := c.T
+		if !c.Abs {
+			u += now
+		}
+		switch c.K {
+		case "t":
+			v = fmt.Sprintf("%d", u)
+		case "tf":
+			v = fmt.Sprintf("%d.5", u)
+		case "ts":
+			v = fmt.Sprintf("\"%d\"", u)
+		case "tr":
+			v = `"` + time.Unix(u, 0).UTC().Format(time.RFC3339) + `"`
+		case "tro":
+			v = `"` + time.Unix(u, 0).In(time.FixedZone("", 7200)).Format(time.RFC3339) + `"`
+		case "trf":
+			v = `"` + time.Unix(u, 500000000).UTC().Format(time.RFC3339Nano) + `"`
+		}
 	case "a":
 		b, _ := json.Marshal(c.A)
 		if c.A == nil {
@@ -419,21 +478,36 @@ var c04LooseUUIDRe = regexp.MustCompile(`^(urn:uuid:|\{)?[0-9a-fA-F]{8}-?[0-9a-f
 
 const c04TimeMargin = 10 // seconds around "now" that are not decided
 
-// c04Instant returns the offset from now (in seconds) of a time-valued claim.
-func c04Instant(c c04Claim, now int64) (off float64, ok bool) {
-	switch c.K {
-	case "t":
-		return float64(c.T), true
-	case "j":
-		f, _, err := big.ParseFloat(strings.TrimSpace(c.S), 10, 200, big.ToNearestEven)
-		if err != nil || f.IsInf() {
-			return 0, false
-		}
+// c04Instant returns the offset from now (in seconds) of a time-valued claim, and whether it was spelled by the book
+// (RFC 7519 NumericDate = JSON number; integers only are counted as "by the book" here, fractions are left undecided).
+func c04Instant(c c04Claim, now int64) (off float64, ok bool, bookish bool) {
+	rel := func(f *big.Float) float64 {
 		f.Sub(f, new(big.Float).SetInt64(now))
 		v, _ := f.Float64()
-		return v, true
+		return v
 	}
-	return 0, false
+	switch c.K {
+	case "t", "tf", "ts", "tr", "tro", "trf":
+		v := float64(c.T)
+		if c.Abs {
+			v -= float64(now)
+		}
+		if c.K == "tf" || c.K == "trf" {
+			v += 0.5
+		}
+		return v, true, c.K == "t"
+	case "j", "s":
+		lit := strings.TrimSpace(c.S)
+		if f, _, err := big.ParseFloat(lit, 10, 200, big.ToNearestEven); err == nil && !f.IsInf() {
+			return rel(f), true, c.K == "j" && f.IsInt()
+		}
+		if c.K == "s" {
+			if t, err := time.Parse(time.RFC3339Nano, lit); err == nil {
+				return float64(t.Unix()-now) + float64(t.Nanosecond())/1e9, true, false
+			}
+		}
+	}
+	return 0, false, false
 }
 
 // c04Ref decides a token specification: verdict and the first rule that decided it.
@@ -546,15 +620,23 @@ func c04Ref(tk c04Tok, credLen int, now int64) (verdict, reason string) {
 		if !ok {
 			return c04Invalid, n + "-missing"
 		}
-		v, ok := c04Instant(c, now)
+		v, ok, bookish := c04Instant(c, now)
 		if !ok {
 			return c04Invalid, n + "-not-a-number"
+		}
+		if !bookish {
+			// a string / fractional spelling: if the instant it denotes breaks a rule the token is invalid under every reading,
+			// otherwise whether the spelling itself is acceptable is not decided
+			note(n + "-spelling")
 		}
 		off[i] = v
 	}
 	iat, nbf, exp := off[0], off[1], off[2]
-	if iat > nbf {
+	switch {
+	case iat > nbf+1:
 		return c04Invalid, "nbf-before-iat"
+	case iat > nbf:
+		note("iat-nbf-subsecond") // libraries truncate to whole seconds
 	}
 	switch life := exp - iat; {
 	case life > 24.5*3600+c04TimeMargin:
@@ -701,7 +783,7 @@ var c04Defects = []string{
 	"time:exp-zero", "time:exp-zero-float", "time:exp-neg-zero", "time:exp-half-second", "time:exp-zero-string", "time:exp-zero-old-iat", "time:all-zero",
 	"time:exp-one", "time:exp-minus-one", "time:exp-null", "time:exp-false", "time:exp-tiny",
 	// signer / key
-	"key:unlisted", "key:unlisted-own-kid", "key:weakrsa", "key:nocomment", "key:nocomment-empty-iss", "key:commented",
+	"key:unlisted", "key:unlisted-own-kid", "key:weakrsa", "key:rsa2040", "key:rsa2041", "key:rsa2047", "key:rsa2047-rs512", "key:nocomment", "key:nocomment-empty-iss", "key:commented",
 	// algorithm
 	"alg:none", "alg:none-keepsig", "alg:None", "alg:absent", "alg:HS256", "alg:HS512", "alg:rsa-weak-hash", "alg:ec-other-hash", "alg:lie",
 	// signature
@@ -837,6 +919,13 @@ func c04ApplyDefect(tk *c04Tok, d string, sel int) {
 	case "key:weakrsa":
 		tk.Signer, tk.Alg = "weakrsa", "RS512" // (PS512 does not fit a 1024-bit modulus)
 		c04SetClaim(tk, c04Claim{N: "iss", K: "s", S: "mallory-weak@example.com"})
+	case "key:rsa2040", "key:rsa2041", "key:rsa2047", "key:rsa2047-rs512": // in the file, with a user name, but below 2048 bit
+		n := strings.TrimSuffix(strings.TrimPrefix(d, "key:"), "-rs512")
+		tk.Signer, tk.Alg = n, "PS512"
+		if strings.HasSuffix(d, "-rs512") {
+			tk.Alg = "RS512"
+		}
+		c04SetClaim(tk, c04Claim{N: "iss", K: "s", S: "mallory-" + strings.TrimPrefix(n, "rsa") + "@example.com"})
 	case "key:nocomment":
 		tk.Signer, tk.Alg = "nocomment", "EdDSA"
 		c04SetClaim(tk, c04Claim{N: "iss", K: "s", S: "nobody"})
@@ -909,6 +998,70 @@ func c04ApplyDefect(tk *c04Tok, d string, sel int) {
 	}
 }
 
+var c04TimeSpellings = []string{"t", "tf", "ts", "tr", "tro", "trf"}
+
+func c04TimeClaim(t *rapid.T, name, instant string) c04Claim {
+	c := c04Claim{N: name, K: c04Pick(t, name+"-spelling", c04TimeSpellings)}
+	switch instant {
+	case "good-past":
+		c.T = -60
+	case "good-future":
+		c.T = 300
+	case "epoch":
+		c.Abs, c.T = true, 0
+	case "epoch+1":
+		c.Abs, c.T = true, 1
+	case "pre-epoch-1s":
+		c.Abs, c.T = true, -1
+	case "pre-epoch-1h":
+		c.Abs, c.T = true, -3600
+	case "pre-epoch-22h":
+		c.Abs, c.T = true, -80000
+	case "year-0001":
+		c.Abs, c.T = true, -62135596800
+	case "year-9999":
+		c.Abs, c.T = true, 253402300799
+	case "100-days-ago":
+		c.T = -100 * 86400
+	case "1h-ago":
+		c.T = -3600
+	case "in-1h":
+		c.T = 3600
+	case "in-25h":
+		c.T = 25 * 3600
+	}
+	return c
+}
+
+// c04TimeCombo replaces iat/nbf/exp of a valid token by a combination of instants and spellings.
+func c04TimeCombo(t *rapid.T, tk *c04Tok) []string {
+	family := c04Weighted(t, "timefamily", "epoch-exp", 3, "independent", 2, "spelling-only", 1)
+	var ei, ni, ii string
+	switch family {
+	case "epoch-exp": // exp is something a library may read as "not set"; nbf / iat anywhere, often just before the epoch
+		ei = c04Pick(t, "exp-instant", []string{"epoch", "epoch", "epoch", "epoch+1", "pre-epoch-1s"})
+		ni = c04Pick(t, "nbf-instant", []string{"good-past", "epoch", "pre-epoch-1s", "pre-epoch-1h", "pre-epoch-22h", "year-0001", "100-days-ago", "in-1h"})
+		ii = c04Pick(t, "iat-instant", []string{"(same-as-nbf)", "(same-as-nbf)", "(same-as-nbf)", "good-past", "epoch", "pre-epoch-1h", "pre-epoch-22h", "year-0001", "100-days-ago"})
+	case "independent":
+		ei = c04Pick(t, "exp-instant", []string{"good-future", "epoch", "epoch+1", "pre-epoch-1s", "year-0001", "year-9999", "1h-ago", "in-25h", "in-1h"})
+		ni = c04Pick(t, "nbf-instant", []string{"good-past", "epoch", "pre-epoch-1s", "year-0001", "100-days-ago", "in-1h", "year-9999", "good-future"})
+		ii = c04Pick(t, "iat-instant", []string{"good-past", "(same-as-nbf)", "epoch", "pre-epoch-1s", "year-0001", "100-days-ago", "in-1h", "year-9999"})
+	default: // sound instants, unusual spellings only
+		ei, ni, ii = "good-future", "good-past", "(same-as-nbf)"
+	}
+	exp := c04TimeClaim(t, "exp", ei)
+	nbf := c04TimeClaim(t, "nbf", ni)
+	iat := nbf
+	iat.N = "iat"
+	if ii != "(same-as-nbf)" {
+		iat = c04TimeClaim(t, "iat", ii)
+	}
+	c04SetClaim(tk, iat)
+	c04SetClaim(tk, nbf)
+	c04SetClaim(tk, exp)
+	return []string{"time-combo:" + family, "time-combo:exp=" + ei + "/" + exp.K, "time-combo:nbf=" + ni + "/" + nbf.K, "time-combo:iat=" + ii}
+}
+
 var c04Garbage = []string{
 	"invalid", "", "a.b.c", "..", ".", "null", "{}", "e30.e30.e30",
 	"eyJhbGciOiJub25lIn0.e30.", // {"alg":"none"}.{}.
@@ -919,7 +1072,11 @@ var c04Garbage = []string{
 
 // c04GenTok draws a token specification; defects is the list of defect names applied (for class counting).
 func c04GenTok(t *rapid.T) (c04Tok, []string) {
-	mode := c04Weighted(t, "tokmode", "valid", 5, "one-defect", 10, "two-defects", 2, "garbage", 2)
+	mode := c04Weighted(t, "tokmode", "valid", 5, "one-defect", 10, "two-defects", 2, "garbage", 2, "time-combo", 6)
+	if mode == "time-combo" {
+		tk := c04ValidTok(t)
+		return tk, c04TimeCombo(t, &tk)
+	}
 	if mode == "garbage" {
 		g := c04Pick(t, "garbage", c04Garbage)
 		if g == "@long" {
